@@ -1039,6 +1039,120 @@ fn store_seqs(out: &mut Out, prop: &str, thorough: bool, seed: u64) {
     out.bounded(&contract, &format!("{} request kinds over 5 keys / 9 patterns: every sequence up to length {depth}, plus {n_random} seeded random sequences of length 3..8; ls-subscriptions on root, a, a/a, c", reqs.len()), cases, cases);
 }
 
+
+// ================================================================================================
+// C07: what the end of a session does - and what it leaves alone (bounded scenarios on the real Worterbuch)
+
+fn c07(out: &mut Out) {
+    use tokio::sync::mpsc::error::TryRecvError as MTry;
+    use tokio::sync::oneshot::error::TryRecvError as OTry;
+    let rt = rt();
+    let internal = worterbuch_common::INTERNAL_CLIENT_ID;
+    let (a, b, w, late) = (ClientId::from_u128(0xA1), ClientId::from_u128(0xB1), ClientId::from_u128(0xC1), ClientId::from_u128(0xD1));
+    let sys = |c: ClientId, s: &str| format!("$SYS/clients/{c}/{s}");
+    let mut cases = 0;
+    for monitoring in [true, false] {
+        for reregister in [false, true] {
+            cases += 1;
+            let r = catch_unwind(AssertUnwindSafe(|| rt.block_on(async {
+                let mut cfg = worterbuch::Config::new(None).await.expect("config");
+                cfg.extended_monitoring = monitoring;
+                let mut wb = Worterbuch::with_config(cfg);
+                let mut problems: Vec<Value> = vec![];
+                for k in ["$SYS/version", "$SYS/sentinel"] { wb.set(k.into(), json!("server"), internal, true).await.expect("internal set"); }
+                // data: keys of A, of B (some inside A's grave-goods pattern), shared ones
+                for (k, v) in [("a/1", 1), ("a/2", 2), ("a/deep/x", 3), ("b/1", 4), ("b/keep", 5), ("shared/a", 6), ("shared/b", 7), ("old/1", 8)] {
+                    wb.set(k.into(), json!(v), internal, true).await.expect("set");
+                }
+                wb.cset("will/cas".into(), json!("protected"), 0, b, false).await.expect("cset");
+                // registrations
+                if reregister {
+                    wb.set(sys(a, "graveGoods"), json!(["old/#"]), a, false).await.expect("A registers grave goods (first time)");
+                    wb.set(sys(a, "lastWill"), json!([{"key": "will/old", "value": "old"}]), a, false).await.expect("A registers a last will (first time)");
+                }
+                wb.set(sys(a, "graveGoods"), json!(["a/#", "shared/a", "b/1", "$SYS/sentinel", sys(b, "#")]), a, false).await.expect("A registers grave goods");
+                wb.set(sys(a, "lastWill"), json!([{"key": "will/plain", "value": 1}, {"key": "will/cas", "value": "overridden"}, {"key": "$SYS/version", "value": "fake"}]), a, false).await.expect("A registers a last will");
+                wb.set(sys(b, "graveGoods"), json!(["b/#"]), b, false).await.expect("B registers grave goods");
+                wb.set(sys(b, "lastWill"), json!([{"key": "will/b", "value": "b"}]), b, false).await.expect("B registers a last will");
+                // subscriptions, publish streams, locks
+                let (mut sub_a, _) = wb.subscribe(a, 1, "b/keep".into(), false, true).await.expect("subscribe A");
+                let (mut sub_b, _) = wb.subscribe(b, 1, "b/keep".into(), false, true).await.expect("subscribe B");
+                let (mut ls_b, _) = wb.subscribe_ls(b, 2, Some("b".into())).await.expect("subscribe_ls B");
+                let _ = ls_b.try_recv();
+                wb.spub_init(7, "stream/a".into(), a).await.expect("spub_init A");
+                wb.spub_init(7, "stream/b".into(), b).await.expect("spub_init B");
+                wb.lock("lock/a".into(), a).await.expect("lock A");
+                wb.lock("lock/b".into(), b).await.expect("lock B");
+                let mut waiting_b = wb.acquire_lock("lock/a".into(), b).await.expect("acquire B");
+                let mut waiting_a = wb.acquire_lock("lock/b".into(), a).await.expect("acquire A");
+                // the watcher sees what ordinary subscribers see
+                let (mut watch, _) = wb.psubscribe(w, 1, "#".into(), false, true).await.expect("psubscribe W");
+                while watch.try_recv().is_ok() {}
+
+                let d = wb.disconnected(a, None).await;
+                if d.is_err() { problems.push(json!({"problem": "disconnected returned an error", "got": format!("{d:?}")})); }
+
+                // 1. grave goods: the LAST registration is buried, nothing else
+                for k in ["a/1", "a/2", "a/deep/x", "shared/a", "b/1"] {
+                    if wb.get(&k.to_owned()).is_ok() { problems.push(json!({"problem": "key named by A's grave goods still exists", "key": k})); }
+                }
+                for (k, v) in [("b/keep", json!(5)), ("shared/b", json!(7)), ("old/1", json!(8)), ("$SYS/sentinel", json!("server")), ("$SYS/version", json!("server"))] {
+                    if wb.get(&k.to_owned()).ok() != Some(v.clone()) { problems.push(json!({"problem": "a key outside A's grave goods / a protected key was touched", "key": k, "got": format!("{:?}", wb.get(&k.to_owned()))})); }
+                }
+                // 2. last will: published, also over a CAS-protected value; an earlier registration is not
+                if wb.get(&"will/plain".to_owned()).ok() != Some(json!(1)) { problems.push(json!({"problem": "last will entry not published", "key": "will/plain"})); }
+                if wb.get(&"will/cas".to_owned()).ok() != Some(json!("overridden")) { problems.push(json!({"problem": "last will did not override the CAS-protected value", "key": "will/cas", "got": format!("{:?}", wb.get(&"will/cas".to_owned()))})); }
+                if wb.get(&"will/old".to_owned()).is_ok() { problems.push(json!({"problem": "a last will that had been replaced was published", "key": "will/old"})); }
+                // 3. A's own $SYS entries are gone, B's registrations are still there
+                match wb.pget(&sys(a, "#")) { Ok(l) if l.is_empty() => {}, o => problems.push(json!({"problem": "entries of the ended session remain below $SYS/clients/<A>", "got": format!("{o:?}")})) }
+                if wb.get(&sys(b, "graveGoods")).ok() != Some(json!(["b/#"])) { problems.push(json!({"problem": "B's grave goods registration was touched", "got": format!("{:?}", wb.get(&sys(b, "graveGoods")))})); }
+                if wb.get(&sys(b, "lastWill")).ok() != Some(json!([{"key": "will/b", "value": "b"}])) { problems.push(json!({"problem": "B's last will registration was touched"})); }
+                if wb.get(&"will/b".to_owned()).is_ok() { problems.push(json!({"problem": "B's last will was published although B is still connected"})); }
+                // 4. subscriptions: A's is gone, B's still works
+                while sub_a.try_recv().is_ok() {}
+                while sub_b.try_recv().is_ok() {}
+                wb.set("b/keep".into(), json!(55), internal, true).await.expect("set");
+                match sub_a.try_recv() { Ok(ev) => problems.push(json!({"problem": "the ended session's subscription still receives events", "event": format!("{ev:?}")})), Err(MTry::Empty) | Err(MTry::Disconnected) => {} }
+                if sub_b.try_recv().is_err() { problems.push(json!({"problem": "B's subscription no longer receives events"})); }
+                // 5. publish streams: A's is gone, B's still works
+                if wb.spub(7, json!(1), a).await.is_ok() { problems.push(json!({"problem": "the ended session's publish stream still exists"})); }
+                if wb.spub(7, json!(1), b).await.is_err() { problems.push(json!({"problem": "B's publish stream was dropped"})); }
+                // 6. locks: A's lock passed to the waiting B, A's waiting request cancelled, B's own lock stays
+                if waiting_b.try_recv() != Ok(()) { problems.push(json!({"problem": "B, waiting for A's lock, was not confirmed when A's session ended"})); }
+                if waiting_a.try_recv() != Err(OTry::Closed) { problems.push(json!({"problem": "A's waiting request for B's lock was not cancelled"})); }
+                if wb.lock("lock/a".into(), late).await.is_ok() { problems.push(json!({"problem": "lock/a is free although B was waiting for it"})); }
+                if wb.lock("lock/b".into(), late).await.is_ok() { problems.push(json!({"problem": "B's own lock was released by A's session end"})); }
+                // 7. subscribers were notified as for ordinary deletes and sets: exactly once per buried key / last-will entry
+                let mut deleted: BTreeMap<String, usize> = BTreeMap::new();
+                let mut setv: BTreeMap<String, usize> = BTreeMap::new();
+                while let Ok(ev) = watch.try_recv() {
+                    match ev {
+                        worterbuch_common::PStateEvent::Deleted(kvs) => for kv in kvs { *deleted.entry(kv.key).or_default() += 1; },
+                        worterbuch_common::PStateEvent::KeyValuePairs(kvs) => for kv in kvs { *setv.entry(kv.key).or_default() += 1; },
+                    }
+                }
+                for k in ["a/1", "a/2", "a/deep/x", "shared/a", "b/1"] {
+                    if deleted.get(k) != Some(&1) { problems.push(json!({"problem": "a subscriber of # did not see exactly one Deleted event for a buried key", "key": k, "seen": deleted.get(k)})); }
+                }
+                for k in ["will/plain", "will/cas"] {
+                    if setv.get(k) != Some(&1) { problems.push(json!({"problem": "a subscriber of # did not see exactly one value event for a last-will entry", "key": k, "seen": setv.get(k)})); }
+                }
+                for k in ["b/keep", "shared/b", "old/1", "$SYS/sentinel", "$SYS/version", "will/b"] {
+                    if k != "b/keep" && (deleted.contains_key(k) || setv.contains_key(k)) { problems.push(json!({"problem": "a subscriber of # saw an event for a key the session end must not touch", "key": k})); }
+                }
+                problems
+            })));
+            match r {
+                Err(_) => out.report("C07/the end of a session does not panic", Some("UNLISTED"), json!({"extended_monitoring": monitoring, "reregistered": reregister})),
+                Ok(problems) => for p in problems {
+                    out.report("C07/session end: grave goods buried, last will published (over CAS), own $SYS entries / subscriptions / streams / locks removed, nothing else touched", Some("UNLISTED"), json!({"extended_monitoring": monitoring, "grave_goods_and_last_will_registered_twice": reregister, "problem": p}));
+                },
+            }
+        }
+    }
+    out.bounded("C07/session end on the real Worterbuch: two clients with overlapping registrations, a watcher and a late comer", "extended monitoring on/off x grave goods and last will registered once/twice; 30 observations per run", cases, cases);
+}
+
 // ================================================================================================
 // C08: $SYS protection
 
@@ -1243,6 +1357,7 @@ fn main() {
         } }
         "C04" => c04(&mut out, thorough),
         "C06" => c06(&mut out, thorough),
+        "C07" => c07(&mut out),
         "C08" => c08(&mut out),
         "C13" => { c13(&mut out); proto::c13(&mut out); }
         "C15" => { c15(&mut out, thorough); proto::c15(&mut out); proto::c15_public_key(&mut out); }
